@@ -14,6 +14,7 @@ pub mod c11;
 pub mod c12;
 pub mod c13;
 pub mod c14;
+pub mod c15;
 pub mod c16;
 pub mod c17;
 pub mod c18;
@@ -35,6 +36,7 @@ pub fn run(run: &Run) -> bool {
 		"C12" => c12::run(run),
 		"C13" => c13::run(run),
 		"C14" => c14::run(run),
+		"C15" => c15::run(run),
 		"C16" => c16::run(run),
 		"C17" => c17::run(run),
 		"C18" => c18::run(run),
@@ -61,6 +63,7 @@ fn replay_case(run: &Run, prop: &str, stage: &str, tape: Option<&[u16]>, v: &ser
 		"C12" => c12::replay(run, stage, tape, v),
 		"C13" => c13::replay(run, stage, tape, v),
 		"C14" => c14::replay(run, stage, tape, v),
+		"C15" => c15::replay(run, stage, tape, v),
 		"C16" => c16::replay(run, stage, tape, v),
 		"C17" => c17::replay(run, stage, tape, v),
 		"C18" => c18::replay(run, stage, tape, v),
